@@ -1087,6 +1087,29 @@ func Conjuncts(t *Term) []*Term {
 	return []*Term{t}
 }
 
+// SplitGoal splits a goal into separately provable parts: conjunctions, and implications whose
+// consequent is a conjunction (a => (b and c) becomes a => b, a => c).
+func (c *Ctx) SplitGoal(t *Term) []*Term {
+	switch t.Op {
+	case "and":
+		var out []*Term
+		for _, a := range t.Args {
+			out = append(out, c.SplitGoal(a)...)
+		}
+		return out
+	case "=>":
+		parts := c.SplitGoal(t.Args[1])
+		if len(parts) > 1 {
+			var out []*Term
+			for _, p := range parts {
+				out = append(out, c.Implies(t.Args[0], p))
+			}
+			return out
+		}
+	}
+	return []*Term{t}
+}
+
 // Size counts DAG nodes reachable from ts.
 func Size(ts ...*Term) int {
 	seen := map[int]bool{}
